@@ -584,6 +584,15 @@ v("C10", "ext-helper-calls-hook-twice", "break", ["C10.once"], [("log.go", "\tif
 v("C10", "ext-helper-used-elsewhere", "break", ["C10.hook-sites"], [("log_logger.go", "func (m *LoggerWrapper) Write(b []byte) (n int, err error) {", "func (m *LoggerWrapper) Write(b []byte) (n int, err error) {\n\t_ = eventTime(nil)")], base="keep-ext/C10-r4a.patch")
 v("C13", "ext-helper-forgets-close", "break", ["C05.close-all", "C05.fd-bound"], [("plugin_appender.go", "\tif file := p.Swap(nil); file != nil {\n\t\t_ = file.Sync()\n\t\t_ = file.Close()\n\t}", "\tif file := p.Swap(nil); file != nil {\n\t\t_ = file.Sync()\n\t}")], base="keep-ext/C13-r4a.patch")
 v("C04", "ext-enqueue-sends-wrapper", "break", ["C04.worker:send-types"], [("plugin_logger.go", "\tc.enqueue(b)\n}", "\tc.enqueue(string(b))\n}")], base="keep-ext/C04-r4c.patch")
+# round-7 shapes: the rules and evaluators must still fire on the refactored code
+v("C13", "ext-snapshot-published-without-claim", "break", ["C13"], [("plugin_appender.go",
+  "\tif !c.claim(c.Rotation.Time(now)) {\n\t\treturn\n\t}\n", "\t_ = c.claim(c.Rotation.Time(now))\n")], base="keep-ext/C13-r7k.patch")
+v("C04", "ext-typed-worker-skips-raw", "break", ["C04"], [("plugin_logger.go",
+  "\t\tcase asyncItemRaw:\n\t\t\tc.writeRawToAppenders(it.raw)\n", "\t\tcase asyncItemRaw:\n\t\t\tif len(it.raw) > 64 {\n\t\t\t\tc.writeRawToAppenders(it.raw)\n\t\t\t}\n")], base="keep-ext/C05-r7k.patch")
+v("C11", "ext-emit-helper-skip-off-by-one", "break", ["C11"], [("log.go",
+  "const viaEntryPoint = 2", "const viaEntryPoint = 1")], base="keep-ext/C11-r7k.patch")
+v("C02", "ext-builder-binds-root-only", "break", ["C02"], [("log_refresh.go",
+  "\t\tobj.logger = c.loggerForTag(tag)\n", "\t\tobj.logger = c.loggerForTag(\"\")\n")], base="keep-ext/C16-r7k.patch")
 v("C14", "ext-predicate-drops-shape", "break", ["C14.guards"], [("plugin_appender.go", "\t_, err := time.Parse(\"20060102150405\", suffix)\n\treturn err == nil", "\treturn suffix != \"\"")], base="keep-ext/C14-r4a.patch")
 v("C16", "ext-unbind-helper-skips-handles", "break", ["C16.unbind"], [("log_refresh.go", "\tfor _, l := range loggerMap {\n\t\tl.logger = nil\n\t}\n}", "}")], base="keep-ext/C16-r4a.patch")
 v("C02", "ext-helper-accepts-bad-wildcard", "break", ["C02.validate"], [("log_refresh.go", "\t\tif strings.Contains(tag, \"*\") {\n\t\t\tif !strings.HasSuffix(tag, \"_*\") {\n\t\t\t\treturn nil, errutil.Explain(nil, \"tag '%s' is invalid\", tag)\n\t\t\t}\n\t\t}\n", "")], base="keep-ext/C02-r4b.patch")
